@@ -35,7 +35,7 @@ def work(args):
   else:
     tr = Traced(lambda w: ll.project_by_dykstra(w, sizes, num_iterations=N, **fam), [tf.TensorSpec([n, 1], tf.float32)])
   sym.new_ctx()
-  w = sym.symbolic('w', (n, 1))
+  w = c08._slice_sym(n, f.get('free'))
   (out,) = tr.sym_run(w)
   boxc = core.box(w, -1, 1)
   extra = []
@@ -72,14 +72,14 @@ def main():
   for f in c08.CONV:
     f = dict(f)
     tag = f.pop('tag')
-    if only and tag not in only:
+    if only and tag.split('@')[0] not in only:
       continue
-    for N in (1, 2, 4, 8, 16):
+    for N in (f.pop('slice_iters', None) or (1, 2, 4, 8, 16)):
       jobs.append((tag, f, N, 'viol'))
       if f.get('nearest', True):
         jobs.append((tag, f, N, 'dist'))
       jobs.append((tag, f, N, 'idem'))
-    if f.get('nearest', True):
+    if f.get('nearest', True) and not f.get('free'):
       jobs.append((tag, f, 8, 'strict'))
   out = c08.load_thresholds() if only else {}
   with mp.get_context('fork').Pool(12) as pool:
